@@ -13,3 +13,5 @@ import Proofs.C09
 #print axioms C09.first_order_is_observation_order
 #print axioms C09.key_less_strict_total
 #print axioms C09.sortKeys_independent
+#print axioms C09.parseNum_spec_order
+#print axioms C09.less_strict_total_spec_num
